@@ -3,7 +3,11 @@ in-memory ZooKeeper fake vs Node/Presence.v.
 
 Each client runs the REAL on_create_request / on_delete_request in its own thread; control passes by baton so
 that a thread yields before every fake-ZooKeeper call; the seed chooses the interleaving, the requests
-(successive containers of the same instance on two hosts, clean-up of old containers) and session expiries."""
+(successive containers of the same instance on two hosts, clean-up of old containers) and session expiries.
+
+Second stage (harness/props/c17ep.py, Node/EpPresence.v): the hostname comparison of presence.EndpointPresence.unregister_*
+and the placement check of trace.app.zk._unschedule, on operation lists of several hosts, compared with the model after
+every operation and judged by an oracle of its own."""
 import json
 import random
 import sys
@@ -673,6 +677,13 @@ TRUSTED = [
     'get/exists reads plus a DELETED callback',
     'the baton-passing scheduler: client threads yield before every fake-ZooKeeper call, one runs at a time',
     'paths, payloads, container ids are Z codes; payload comparison in _safe_create is equality of codes',
+    'hand-written model Node/EpPresence.v of presence.EndpointPresence.register_running/unregister_running/register_endpoints/'
+    'unregister_endpoints/register_identity/unregister_identity (with _create_ephemeral_with_retry) and '
+    'trace.app.zk._unschedule: one operation = one call of the function; host names and node payloads are byte strings '
+    '(the endpoint comparison is the text before the first colon), the JSON object of register_identity is kept parsed; tied '
+    'by differential execution of the real functions on the in-memory ZooKeeper (outcome of every call and the whole node table '
+    'after every operation); presence._EPHEMERAL_RETRY_INTERVAL is set to 0 and trace.app.zk._HOSTNAME is set per call inside '
+    'the harness process',
 ]
 ASSUMPTIONS = [
     'an expired session performs no further successful operation and the service process exits (zkutils.exit_on_lost -> os._exit, '
@@ -682,12 +693,28 @@ ASSUMPTIONS = [
     'the quantifier of C17',
     'requests of one service are processed one at a time (the resource service main loop); watch callbacks only call retry_request',
     'initial node table and local presence maps are arbitrary (the local map may be stale); sessions are pairwise distinct',
+    'EndpointPresence / _unschedule level (C17_ep_*): a call of unregister_* (get, compare, delete) or _unschedule (exists, '
+    'delete) is one step - no other operation between its ZooKeeper calls (C17_ep_check_then_act_witness shows what separating '
+    'them allows); the nodes concerned have no children; payloads other than the identity object do not parse to a mapping and '
+    'are valid UTF-8; host names are not empty, contain no colon (host_ok, where the theorems need it) and do not begin with {',
+    'hostname ownership does not tell two containers on the same host apart (C17_ep_same_host_newer_refuted, '
+    'C17_ep_port_not_compared): at this level the never-unregisters-a-newer-one clause is proved for a newer container on '
+    'ANOTHER host; within /repo unregister_* is called only by presence.kill_node, which removes every node of the host',
 ]
+
+
+def _extra_with_ep_stage(tier, seed):
+    def extra(r, cases, obs):
+        from . import c17ep
+        cov = _extra(r, cases, obs)
+        cov.update(c17ep.stage(r, seed, 250 if tier == 'quick' else 6000))
+        return cov
+    return extra
 
 
 def run(tier, seed):
     core.standard_run(PID, tier, seed, {
-        'model_vos': ['Node/Presence'], 'table_sections': ['source_shape'],
+        'model_vos': ['Node/Presence', 'Node/EpPresence'], 'table_sections': ['source_shape'],
         'preamble': PREAMBLE, 'run_fn': RUN_FN, 'in_type': IN_TYPE,
         'gen_case': gen_case, 'impl_run': impl_run,
         'expected': expected, 'case_term': case_term,
@@ -699,12 +726,21 @@ def run(tier, seed):
                 'instance (running + 0-2 endpoints + optional identity), re-evaluate / retry a pending one, delete an old '
                 'container, perform ONE pending ZooKeeper call of a client, expire a session, restart a service; a third of the '
                 'cases start from a stale state (nodes owned by either session, entries in the local maps); non-trivial = two '
-                'sessions met on one path (a get saw a foreign owner) and a node went away (successful delete or expiry)',
-        'trusted': TRUSTED, 'assumptions': ASSUMPTIONS, 'anchors': ANCHORS, 'extra': _extra,
+                'sessions met on one path (a get saw a foreign owner) and a node went away (successful delete or expiry); '
+                'second stage: operation lists of 2-3 hosts (one host name a prefix of another) on the real '
+                'EndpointPresence.register_*/unregister_* and trace.app.zk._unschedule: an instance moving between hosts with a '
+                'late clean-up of the old container (own or administrator session), a newer container on the same host, the '
+                'master placing / moving / scheduling the instance with stale events on the old host, kill_node-like removal, '
+                'leftover nodes (empty, another host, bare host name, extra fields, non-mapping identity), session expiry; '
+                'model compared after every operation',
+        'trusted': TRUSTED, 'assumptions': ASSUMPTIONS, 'anchors': ANCHORS, 'extra': _extra_with_ep_stage(tier, seed),
     })
 
 
 def replay_case(case):
+    if isinstance(case, dict) and case.get('engine') == 'E-eppresence':
+        from . import c17ep
+        return c17ep.replay(case['case'])
     obs = impl_run(case)
     v = oracle(case, obs)
     return v[0] if v else None
